@@ -40,7 +40,7 @@ CLAIMS = {
             'registered function applied once to (r1..r5), result in r0, other registers, frames and memory unchanged; unknown id = error. '
             'Theorem C08_jit_call_contract (over the instructions jit.rs emits around emit_call, regenerated): eBPF r1..r5 arrive in the System V argument registers, '
             'an even number of words is pushed, the result is taken from rax, r6..r10 and the JIT\'s r10 come back for any helper that honours the ABI; '
-            'C08_compiled_call_key: both compilers key the helper by the unsigned immediate, refuse unregistered ids at compile time, Cranelift passes r1..r5 and defines r0. '
+            'C08_compiled_call_key: both compilers key the helper by the unsigned immediate, refuse unregistered ids at compile time, Cranelift passes r1..r5 and defines r0; C08_jit_call_step / C08_cranelift_call_step: as one step of the compiled program (JitStep.jit_exec, ClStep.cl_exec) the call applies exactly the registered function to (r1..r5), defines r0, leaves r6-r10 and memory unchanged and continues at the next instruction. '
             'The machine code itself: JIT and Cranelift are compared with the interpreter using instrumented helpers (argument mixer, call counter, caller-saved clobberer, '
             'stack-alignment probe) at call depth 0..3.',
             'Compiled engines: call-site logic proved, machine code by differential execution; System V ABI and Cranelift\'s code generation trusted.'),
@@ -95,8 +95,10 @@ CLAIMS = {
             'rbx, r13-r15 (prologue: C09; helper calls: C08; local calls: C07). Composition (JitStep.v, JitRun.v): C03_step_simulates -- with eBPF register k in x86 register '
             'REGISTER_MAP[k] and R10 = packet address, the sequence emitted for any accepted instruction other than a call (jit_exec: the regenerated arms run on X86Sem / X86Seq, '
             'registers taken modulo 2^64 between sequences) ends, whenever the ISA step succeeds, at the ISA next pc with the ISA memory in a related register file; '
-            'C03_run_refines -- the code of every accepted program without calls returns the ISA value and leaves the ISA memory for every input, budget and content of the '
-            'unmapped / unwritten registers; jit_steps is evaluated inside Coq against the real JIT on the raw VM on every run. Searched, not proved: the CPU executing the bytes '
+            'C03_helper_call_simulates -- the call site around any helper honouring the System V ABI gives the registered function r1..r5, defines r0, brings r6..r10 back and leaves '
+            'the helper\'s garbage in r1..r5; C03_run_refines -- the code of every accepted program whose calls are helper calls returns the value and leaves the memory of the ISA run '
+            '(in which r1-r5 hold that garbage after a call: the plain ISA run when there is no call, C03_reference_without_calls) for every input, budget, content of the '
+            'unmapped / unwritten registers and garbage; jit_steps is evaluated inside Coq against the real JIT on the raw VM on every run (helper-call programs included). Searched, not proved: the CPU executing the bytes '
             'and the CPU itself, by executing compiled '
             'code in a child process against the interpreter on a corpus of ~8000 programs built to cover every opcode x every destination/source register pair x '
             'boundary immediates and displacements x control-flow shapes x program lengths above 65535 x 4 VM kinds (about 14000 runs), plus the C07 call graphs. '
